@@ -189,6 +189,10 @@ func genC08(tier string, seed uint64, emit0 func(string)) {
 		if nth%3 == 0 && strings.HasPrefix(line, "sys n=") {
 			emit0("sys tls " + line[4:])
 		}
+		// ... and every fifth with an application-installed AUTH handler that reports refusals as error messages
+		if nth%5 == 0 && strings.HasPrefix(line, "sys n=") {
+			emit0("sys authmsg " + line[4:])
+		}
 	}
 	pws := []string{"secret", "S3cr3t!", "pass word", "p\r\nq", "a"}
 	probe := func(id int) []sysStep {
@@ -331,8 +335,16 @@ func oracleC08(pw *string, sched []sysStep, events []string) (string, []string) 
 	return "ok", tags
 }
 
-func genC13(tier string, seed uint64, emit func(string)) {
+func genC13(tier string, seed uint64, emit0 func(string)) {
 	r := NewRng(seed)
+	nth := 0
+	emit := func(line string) {
+		emit0(line)
+		nth++
+		if nth%4 == 0 && strings.HasPrefix(line, "sys n=") && strings.Contains(line, " pw=") {
+			emit0("sys authmsg " + line[4:])
+		}
+	}
 	data := func(id int) sysStep {
 		switch r.Intn(4) {
 		case 0:
